@@ -104,7 +104,7 @@ CHECKS = {
     ref="DESIGN.md section 5 (C19)"),
  "C20": dict(
     technique="TLA+ model of the file writers (TraceFiles / MC_TraceFiles: WithCounters, Overlay, RoundTrip, UpdateRank) checked by TLC + TLC trace validation of the files the real tool wrote (Trace_Files)",
-    text="TLC checks on every source of <=2 entries, every critical set and every set of drawn edges that the writers satisfy OnlyAppended / MarkedExactly / Filter / FlowPairs / FlowPlacement; 120/1500 cases: generated traces through generate_trace_with_counters and overlay_critical_path_analysis with all four option combinations (entries canonicalised and interned: source entries unchanged and in order, only counters / flow arrows appended, critical marker exactly on the path's events, one s/f pair per drawn edge on the pid/tid of the joined events), and write_trace/read_trace round trips, update_trace_rank with ranks 0..1000 and create_rank_to_trace_dict on 1-4 files in both formats.",
+    text="TLC checks on every source of <=2 entries, every critical set and every set of drawn edges that the writers satisfy OnlyAppended / MarkedExactly / Filter / FlowPairs / FlowPlacement; 120/1500 cases: generated traces through generate_trace_with_counters and overlay_critical_path_analysis with all four option combinations (entries canonicalised and interned: source entries unchanged and in order, only counters / flow arrows appended, critical marker exactly on the path's events, one s/f pair per drawn edge on the pid/tid of the joined events), and write_trace/read_trace round trips, update_trace_rank with ranks 0..1000, create_rank_to_trace_dict on 1-4 files in both formats (again after the rank update, incl. files padded so that the rank digits straddle a block boundary), and generate_trace_with_counters for several ranks in one call.",
     note="Files are opened by magic bytes (gzip data under a .json name, observation O1). " + TB,
     ref="DESIGN.md section 5 (C20)"),
 }
